@@ -11,10 +11,10 @@ def run(tier, only=None):
     t = 400 if tier == "quick" else 1800
     ladder = [4, 3] if tier == "quick" else [6, 5, 4]
     conds = [Cond("harness.h_c20", "h_text", t, ladder=ladder)]
-    for a in (1, 2, 9, 11):
+    for a in ((1, 9, 12, 13) if tier == "quick" else (1, 9, 11, 12, 13)):
         conds.append(Cond("harness.h_c20", "h_text", t, ladder=([2] if tier == "quick" else [3, 2]), affix=a, label="h_text[embedded in concrete text %d]" % a))
     rep.bounds = {"string_length": "<= %d (ladder %r)" % (ladder[0], ladder), "alphabet": "{a, b, space, TAB, LF, NBSP, EM SPACE}",
-                  "affixes": "also with the symbolic string (<= 3) embedded in concrete text: 40 / 70 character runs, U+2028 + astral, 63 characters of 'ab ' words so that the symbolic part straddles position 64"}
+                  "affixes": "also with the symbolic string (<= 3) embedded in concrete text: a 40-character run, U+2028 + astral, 63 / 61+2 characters so that the symbolic part straddles position 64 (thorough also 21 words)"}
     rep.extra["rule"] = "one CrossHair condition (all strings within the bound); non-trivial = confirmed over all paths"
     rep.assumptions = ["words = maximal runs of non-whitespace characters (NBSP counts as whitespace)",
                        "XML half (normalize(doc, is_xml=True)) is NOT decided: the XSLT stylesheet is interpreted by libxslt (C); mutations of the stylesheet "
